@@ -7,6 +7,7 @@ import re
 
 ROOT = os.path.dirname(os.path.dirname(os.path.abspath(__file__)))
 rows = []
+stats = []
 for d in sorted(glob.glob(os.path.join(ROOT, 'seeded', '*'))):
     name = os.path.basename(d)
     try:
@@ -28,9 +29,35 @@ for d in sorted(glob.glob(os.path.join(ROOT, 'seeded', '*'))):
             kinds.add('deductive')
             short.append(o.split(':', 1)[1] if ':' in o else o)
     order = [k for k in ('deductive', 'ground', 'bounded') if k in kinds]
+    try:
+        meta = json.load(open(os.path.join(d, 'meta.json')))
+    except OSError:
+        meta = {}
+    if meta.get('neutralised'):
+        order = ['(neutralised by a later repair of pedal)']
+    stats.append((name, det['check_exit'], tuple(order), bool(meta.get('neutralised')), det.get('property') or meta.get('property'),
+                  det.get('no_failing_input_found', 0), det.get('violation_lines', 0)))
     shown = '; '.join(short[:3]) + (' …(+%d)' % (len(short) - 3) if len(short) > 3 else '')
     rows.append('| %s | %s | %s | %s | %s |' % (name, ', '.join(f.replace('pedal/', '') for f in files), det['check_exit'],
                                             ' + '.join(order) or '-', shown.replace('|', '\\|')))
 print('| seed | file changed | check exit | caught by | failed obligations |')
 print('|------|--------------|------------|-----------|--------------------|')
 print('\n'.join(rows))
+
+live = [x for x in stats if not x[3]]
+n = len(live)
+det = [x for x in live if x[1] == 1]
+ded = [x for x in det if 'deductive' in x[2]]
+ded_only = [x for x in det if x[2] == ('deductive',)]
+ground = [x for x in det if 'ground' in x[2]]
+bounded_only = [x for x in det if x[2] == ('bounded',)]
+print()
+print('Summary: %d seeded changes (%d neutralised by later repairs and not counted); %d of the remaining %d end with exit 1. '
+      '%d are caught by a failed contract obligation (%d of them by nothing else), %d by a table cell, %d only by a bounded '
+      'stand-in. Not detected: %s.' % (len(stats), len(stats) - n, len(det), n, len(ded), len(ded_only), len(ground), len(bounded_only),
+                                       ', '.join(x[0] for x in live if x[1] != 1) or 'none'))
+by_round = {}
+for x in live:
+    r = re.search(r'_r(\d)m', x[0])
+    by_round.setdefault(int(r.group(1)) if r else 1, []).append(x)
+print('Per round: ' + '; '.join('round %d: %d' % (k, len(v)) for k, v in sorted(by_round.items())))
